@@ -104,6 +104,79 @@ def eliminate_returns(stmts, target, close=True):
     return out
 
 
+def eliminate_returns_flag(stmts, target, flag):
+    """General form for helpers whose returns sit inside loops / try / with:
+    every `return e` becomes `target = e; flag = True` (+ break inside a
+    loop), and whatever follows a statement that may have returned runs only
+    `if not flag`.  `flag` is a fresh name initialised to False by the caller.
+    Equivalent to the helper for every execution; adds no path on which the
+    helper's statements run in a different order."""
+    def fl(ctx=ast.Load):
+        return ast.Name(id=flag, ctx=ctx())
+
+    def rec(ss, in_loop):
+        out = []
+        for i, s in enumerate(ss):
+            if isinstance(s, ast.Return):
+                val = s.value if s.value is not None else \
+                    ast.Constant(value=None)
+                out.append(ast.copy_location(ast.Assign(
+                    targets=[target()], value=val, lineno=s.lineno), s))
+                out.append(ast.copy_location(ast.Assign(
+                    targets=[fl(ast.Store)], value=ast.Constant(value=True),
+                    lineno=s.lineno), s))
+                if in_loop:
+                    out.append(ast.copy_location(ast.Break(), s))
+                return out
+            if not _contains(s, ast.Return):
+                out.append(s)
+                continue
+            new = copy.copy(s)
+            if isinstance(s, ast.If):
+                new.body = rec(s.body, in_loop) or [ast.Pass()]
+                new.orelse = rec(s.orelse, in_loop)
+            elif isinstance(s, (ast.For, ast.While)):
+                new.body = rec(s.body, True) or [ast.Pass()]
+                new.orelse = rec(s.orelse, in_loop)
+            elif isinstance(s, ast.Try):
+                if _has_return(s.finalbody):
+                    raise _NotStructured()
+                new.body = rec(s.body, in_loop) or [ast.Pass()]
+                hs = []
+                for h in s.handlers:
+                    h2 = copy.copy(h)
+                    h2.body = rec(h.body, in_loop) or [ast.Pass()]
+                    hs.append(h2)
+                new.handlers = hs
+                oe = rec(s.orelse, in_loop)
+                if oe and _has_return(s.body):
+                    # a return in the try body skips the else clause
+                    oe = [ast.If(test=ast.UnaryOp(op=ast.Not(), operand=fl()),
+                                 body=oe, orelse=[])]
+                new.orelse = oe
+            elif isinstance(s, (ast.With,)):
+                new.body = rec(s.body, in_loop) or [ast.Pass()]
+            else:
+                raise _NotStructured()
+            out.append(new)
+            if in_loop:
+                out.append(ast.If(test=fl(), body=[ast.Break()], orelse=[]))
+            rest = rec(ss[i + 1:], in_loop)
+            if rest:
+                out.append(ast.If(test=ast.UnaryOp(op=ast.Not(), operand=fl()),
+                                  body=rest, orelse=[]))
+            return out
+        return out
+    body = rec(list(stmts), False)
+    init = ast.Assign(targets=[fl(ast.Store)], value=ast.Constant(value=False),
+                      lineno=0)
+    tail = ast.If(test=ast.UnaryOp(op=ast.Not(), operand=fl()),
+                  body=[ast.Assign(targets=[target()],
+                                   value=ast.Constant(value=None), lineno=0)],
+                  orelse=[])
+    return [init] + body + [tail]
+
+
 def _simple_def(fn):
     if not isinstance(fn, ast.FunctionDef):
         return False
@@ -501,7 +574,12 @@ class Expander(object):
         try:
             new = eliminate_returns(body, target)
         except _NotStructured:
-            return None
+            self.counter += 1
+            try:
+                new = eliminate_returns_flag(body, target,
+                                             "_ret__%d" % self.counter)
+            except _NotStructured:
+                return None
         out = binds + new + post
         for n in out:
             ast.fix_missing_locations(n)
